@@ -55,6 +55,7 @@ func main() {
 	eng := &Engine{repo: *repo, verif: *verif, sorts: newSorts(), tmpdir: tmp, seed: *seed, timeout: *timeout, skipUnclaimed: *tier != "thorough" && !*verbose}
 	if err := eng.load(); err != nil {
 		fmt.Fprintln(os.Stderr, "ENGINE-ERROR:", err)
+		os.RemoveAll(tmp)
 		os.Exit(2)
 	}
 	var want map[string]bool
@@ -118,7 +119,9 @@ func main() {
 	}
 	rep := &report{eng: eng, results: results, bounded: bounded, tier: *tier, want: want, verbose: *verbose, lockMode: *lockMode,
 		noReplay: *noReplay, start: start, genSecs: genSecs}
-	os.Exit(rep.finish())
+	code := rep.finish()
+	os.RemoveAll(tmp)
+	os.Exit(code)
 }
 
 func sortedProps(m map[string]bool) []string {
